@@ -14,6 +14,7 @@
 package main
 
 import (
+	"strconv"
 	"fmt"
 	"go/ast"
 	"go/constant"
@@ -39,6 +40,7 @@ type target struct {
 	opaque []string // callees that stay outside: each becomes a parameter `<name>P` of the translated function that calls it
 	chanLog string  // a (pruned) struct that gets the ghost field `chlog`: the channel operations its methods perform, in order
 	regions []regionSpec // statements of a function translated as definitions of their own
+	dynRW   bool         // an http.ResponseWriter is a GoRT.DynRW here (its identity, the extra methods its dynamic type has, what Unwrap returns): type switches over it
 	callLog string       // a (pruned) struct that gets the ghost field `cblog`: the calls its methods make through callback values (numbers), in order
 }
 
@@ -86,6 +88,8 @@ var targets = []target{
 	{dir: ".", files: []string{"message.go", "message_fields.go"}, funcs: []string{"messageField.Scan", "messageField.UnmarshalJSON", "messageField.MarshalText"}, out: "FieldRoutes"},
 	// sse.Upgrade: which writer the session gets is getResponseWriter's answer (a parameter), the Last-Event-ID header
 	{dir: ".", files: []string{"message.go", "message_fields.go", "session.go"}, funcs: []string{"Upgrade"}, out: "Upgrade", opaque: []string{"getResponseWriter"}},
+	// … and getResponseWriter itself: the loop over Unwrap() with its type switch on what the writer's dynamic type can do
+	{dir: ".", files: []string{"message.go", "message_fields.go", "session.go"}, funcs: []string{"getResponseWriter"}, out: "Writers", dynRW: true},
 	// Server.Publish's topic defaulting
 	{dir: ".", files: []string{"server.go"}, funcs: []string{"getTopics"}, out: "Server"},
 	// what a reconnection attempt does to the request: the body re-obtained, the Last-Event-ID header set or removed
@@ -141,6 +145,8 @@ type tr struct {
 	orderParam     string                     // the current function ranges over a map: the order of its keys is this parameter
 	orderOf        map[*ast.RangeStmt]string  // … one parameter per range over a map (order, order2, …)
 	callLog        string                     // the struct that carries the ghost log of callback calls
+	dynRW          bool                       // http.ResponseWriter is GoRT.DynRW in this target
+	dynIfaces      map[string][]string        // interfaces that are cases of a type switch over such a writer: the methods they ask for
 	callArgTy      string                     // … Lean type of the argument the callbacks take
 	retEnv         []*types.Var               // the current function returns a function literal: the variables it captures (closure conversion)
 	retEnvTy       string
@@ -259,11 +265,23 @@ func (t *tr) leanType(ty types.Type, at ast.Node) string {
 				return "(MsgWriter Message σ)" // any subscriber: a state and what Send / Flush answer and become
 			}
 		}
+		if t.dynRW && t.isResW(u) {
+			return "(String × DynRW)" // the wrapper type chosen, and the writer it wraps
+		}
 		if t.isResW(u) {
 			return "(ResW σ)" // any response writer: a state and what Write / Flush / Header()[k] = v do
 		}
 		if u.Obj().Pkg() != nil && u.Obj().Pkg().Path() == "net/http" && u.Obj().Name() == "Request" {
 			return "HttpReq" // GoRT.HttpReq: body, GetBody, header
+		}
+		if t.dynRW && u.Obj().Pkg() != nil && u.Obj().Pkg().Path() == "net/http" && u.Obj().Name() == "ResponseWriter" {
+			return "DynRW" // its identity, the extra methods of its dynamic type, what Unwrap() returns
+		}
+		if t.dynRW && t.isResW(u) {
+			return "(String × DynRW)" // the wrapper type chosen, and the writer it wraps
+		}
+		if t.dynRW && u.Obj().Pkg() == t.pkg && t.dynIfaces[u.Obj().Name()] != nil {
+			return "DynRW" // a writer known to have the methods of this interface
 		}
 		if u.Obj().Pkg() != nil && u.Obj().Pkg().Path() == "net/http" && u.Obj().Name() == "ResponseWriter" {
 			return "HttpRW" // an http.ResponseWriter of whatever dynamic type: an opaque identity (GoRT.HttpRW)
@@ -1026,6 +1044,13 @@ func (t *tr) expr(e *em, x ast.Expr) string {
 		if !ok {
 			die(t.pos(x), "composite literal of %s", n)
 		}
+		if t.dynRW && st.NumFields() == 1 && st.Field(0).Embedded() && len(v.Elts) == 1 {
+			if fn, ok := st.Field(0).Type().(*types.Named); ok && t.dynIfaces[fn.Obj().Name()] != nil {
+				if _, kv := v.Elts[0].(*ast.KeyValueExpr); !kv {
+					return "(" + strconv.Quote(n.Obj().Name()) + ", " + t.expr(e, v.Elts[0]) + ")" // wrapper{v}: which wrapper, around which writer
+				}
+			}
+		}
 		vals := map[string]string{}
 		fieldByName := func(name string) *types.Var {
 			for i := 0; i < st.NumFields(); i++ {
@@ -1177,6 +1202,13 @@ func (t *tr) call(e *em, v *ast.CallExpr) string {
 		res := t.fresh("gbr")
 		e.line("let %s : BodyV × (Option String) := (%s.1, %s.2.1)", res, r, r)
 		return res
+	}
+	if sel, ok := v.Fun.(*ast.SelectorExpr); ok && t.dynRW && sel.Sel.Name == "Unwrap" && len(v.Args) == 0 {
+		if xn, ok := t.info.Types[sel.X].Type.(*types.Named); ok && t.dynIfaces[xn.Obj().Name()] != nil {
+			u := t.fresh("uw")
+			e.line("let %s ← dynUnwrap %s", u, t.expr(e, sel.X))
+			return u
+		}
 	}
 	if sel, ok := v.Fun.(*ast.SelectorExpr); ok && (sel.Sel.Name == "Del" || sel.Sel.Name == "Set") {
 		if tv, ok := t.info.Types[sel.X]; ok {
@@ -2749,6 +2781,24 @@ func (t *tr) stmts(e *em, list []ast.Stmt, up *kont, lc *loopCtx) {
 				die(t.pos(cc), "type switch clause with several types")
 			}
 			var is, get string
+			if cn, ok := t.info.Types[cc.List[0]].Type.(*types.Named); ok && t.dynRW && t.dynIfaces[cn.Obj().Name()] != nil {
+				// case T over a response writer: its dynamic type has T's methods (beyond http.ResponseWriter's own)
+				var qs []string
+				for _, m := range t.dynIfaces[cn.Obj().Name()] {
+					qs = append(qs, strconv.Quote(m))
+				}
+				e.line("if (dynHas %s [%s]) then do", subj, strings.Join(qs, ", "))
+				e.ind++
+				if iv, ok := t.info.Implicits[cc].(*types.Var); ok {
+					e.line("let %s : DynRW := %s", t.nameOf(iv), subj)
+				}
+				t.stmts(e, cc.Body, k, lc)
+				e.ind--
+				e.line("else do")
+				e.ind++
+				tdepth++
+				continue
+			}
 			switch t.leanType(t.info.Types[cc.List[0]].Type, cc) {
 			case "Bytes":
 				if _, isSl := t.info.Types[cc.List[0]].Type.Underlying().(*types.Slice); isSl {
@@ -3303,6 +3353,9 @@ func (t *tr) findNilable(fd *ast.FuncDecl, sig *types.Signature) {
 			_, basic := p.Elem().Underlying().(*types.Basic)
 			return !basic
 		}
+		if t.dynRW && t.isResW(v.Type()) {
+			return true // the package's ResponseWriter as a result: nil or a wrapper around a writer
+		}
 		return false
 	}
 	ast.Inspect(fd.Body, func(n ast.Node) bool {
@@ -3406,6 +3459,41 @@ func (t *tr) function(out *em, fd *ast.FuncDecl, leanName string) {
 	t.closures = map[types.Object]*closureInfo{}
 	t.effParams = map[*types.Var]bool{}
 	body := fd.Body.List
+	if t.dynRW {
+		// the interfaces a type switch over an http.ResponseWriter asks about: the methods each adds to the writer's own
+		ast.Inspect(fd.Body, func(n ast.Node) bool {
+			ts, ok := n.(*ast.TypeSwitchStmt)
+			if !ok {
+				return true
+			}
+			for _, c := range ts.Body.List {
+				for _, x := range c.(*ast.CaseClause).List {
+					cn, ok := t.info.Types[x].Type.(*types.Named)
+					if !ok {
+						continue
+					}
+					iface, ok := cn.Underlying().(*types.Interface)
+					if !ok {
+						continue
+					}
+					var ms []string
+					for i := 0; i < iface.NumMethods(); i++ {
+						switch m := iface.Method(i).Name(); m {
+						case "Header", "Write", "WriteHeader":
+						default:
+							ms = append(ms, m)
+						}
+					}
+					sort.Strings(ms)
+					if ms == nil {
+						ms = []string{}
+					}
+					t.dynIfaces[cn.Obj().Name()] = ms
+				}
+			}
+			return true
+		})
+	}
 	// closure conversion: a method that returns a function literal without parameters returns the literal's environment
 	// (the variables it captures); the literal's body is translated as a region of its own (kind "retlit")
 	t.retEnv, t.retEnvTy = nil, ""
@@ -4007,6 +4095,8 @@ func main() {
 		}
 		t.chanLog = tg.chanLog
 		t.callLog = tg.callLog
+		t.dynRW = tg.dynRW
+		t.dynIfaces = map[string][]string{}
 		t.opaque = map[string]bool{}
 		for _, on := range tg.opaque {
 			t.opaque[on] = true
